@@ -416,6 +416,66 @@ pub async fn run(cases: usize, seed: u64) {
                 for (_, (_, secrets)) in wrong.iter_mut() { for (_, v) in secrets.iter_mut() { if !done { v.0.push_str("-x"); done = true; } } }
                 if done { compare_index("selftest (planted difference)", backend, &account, &wrong, &trace, case).await; }
             }
+            // C12: folder password change followed by key-dependent operations IN THE SAME SESSION, and "no blob
+            // encrypted under the old key remains in the folder's storage" (the old ciphertext of a secret is
+            // searched in every file of the storage directory; file system only — SQLite keeps freed pages)
+            if case % 6 == 1 {
+                let cands: Vec<VaultId> = model.iter().filter(|(f, v)| **f != archive_id && !v.1.is_empty() && v.1.values().all(|x| x.2.is_empty())).map(|(f, _)| *f).collect();
+                if !cands.is_empty() {
+                    let fid = cands[r.below(cands.len() as u64) as usize];
+                    let sid = *model[&fid].1.keys().next().unwrap();
+                    let old_cipher_text: Vec<u8> = match account.raw_secret(&fid, &sid).await.unwrap() {
+                        Some((commit, _)) => sos_core::encode(&commit.1).await.unwrap(),
+                        None => vec![],
+                    };
+                    account.compact_folder(&fid).await.unwrap();
+                    let new_key: AccessKey = secrecy::SecretString::from(format!("new folder key {} {}", case, r.below(1000000))).into();
+                    account.change_folder_password(&fid, new_key).await.unwrap();
+                    trace.push("compact_folder; change_folder_password".into());
+                    if let Err(e) = account.compact_folder(&fid).await {
+                        fail("folder-unusable-after-password-change", format!("\"backend\":\"{}\",\"case\":{},\"trace\":{:?},\"operation\":\"compact_folder in the same session\",\"error\":\"{}\"", backend, case, trace, e.to_string().replace('"', "'")));
+                    }
+                    let (m, s, l, t) = note(&mut r);
+                    match account.create_secret(m, s, AccessOptions { folder: Some(fid), ..Default::default() }).await {
+                        Ok(c) => { model.get_mut(&fid).unwrap().1.insert(c.id, (l, t, vec![])); }
+                        Err(e) => fail("folder-unusable-after-password-change", format!("\"backend\":\"{}\",\"case\":{},\"trace\":{:?},\"operation\":\"create_secret in the same session\",\"error\":\"{}\"", backend, case, trace, e.to_string().replace('"', "'"))),
+                    }
+                    compare("after folder password change", backend, &account, &model, &trace, case).await;
+                    if backend == "filesystem" && old_cipher_text.len() >= 24 {
+                        let mut stack = vec![sandbox_dir.join("source")];
+                        while let Some(d) = stack.pop() {
+                            for e in std::fs::read_dir(&d).unwrap().flatten() {
+                                let p = e.path();
+                                if p.is_dir() { stack.push(p); continue; }
+                                // "the folder's storage": the files that carry the folder id in their name (vault file,
+                                // folder event log, and anything else kept beside them such as snapshots); the ACCOUNT
+                                // event log legitimately keeps earlier CreateFolder / CompactFolder buffers
+                                if !p.file_name().unwrap().to_string_lossy().contains(&fid.to_string()) { continue; }
+                                let bytes = std::fs::read(&p).unwrap_or_default();
+                                if bytes.windows(old_cipher_text.len()).any(|w| w == &old_cipher_text[..]) {
+                                    fail("blob-under-old-key-remains-in-storage", format!("\"backend\":\"{}\",\"case\":{},\"trace\":{:?},\"file\":{:?}", backend, case, trace, p.file_name().unwrap()));
+                                }
+                            }
+                        }
+                    }
+                }
+            }
+            // C12: cipher change of the whole account (cipher only, the KDF stays): every folder reports the new
+            // cipher afterwards and serves the model
+            if case % 6 == 4 {
+                use sos_core::crypto::Cipher;
+                let before = account.list_folders().await.unwrap();
+                let target_cipher = if before.iter().all(|s| *s.cipher() == Cipher::AesGcm256) { Cipher::XChaCha20Poly1305 } else { Cipher::AesGcm256 };
+                let kdf = *before[0].kdf();
+                account.change_cipher(&key, &target_cipher, Some(kdf)).await.unwrap();
+                trace.push("change_cipher(cipher only)".into());
+                for s in account.list_folders().await.unwrap() {
+                    if *s.cipher() != target_cipher {
+                        fail("folder-not-converted-by-change-cipher", format!("\"backend\":\"{}\",\"case\":{},\"trace\":{:?},\"folder\":{:?},\"cipher\":\"{}\",\"target\":\"{}\"", backend, case, trace, s.name(), s.cipher(), target_cipher));
+                    }
+                }
+                compare("after cipher change", backend, &account, &model, &trace, case).await;
+            }
             // C12: every third history ends with an account password change
             let mut key = key;
             if case % 3 == 0 {
